@@ -8,6 +8,7 @@ import (
 
 	"github.com/agglayer/aggkit/sync"
 	"github.com/agglayer/aggkit/tree"
+	"github.com/ethereum/go-ethereum/common"
 )
 
 // Hooks for the verification harness (build tag verif): thin wrappers, no logic of their own.
@@ -37,3 +38,8 @@ func (v *VerifProcessor) RollupExitTree() *tree.UpdatableTree           { return
 // Facade returns an L1InfoTreeSync around the processor (no driver): the exported query entry points with
 // their halted guards.
 func (v *VerifProcessor) Facade() *L1InfoTreeSync { return &L1InfoTreeSync{processor: v.P} }
+
+// VerifBuildAppender returns the log handlers of the L1 info tree downloader (no contract sanity calls: parsing only).
+func VerifBuildAppender() (sync.LogAppenderMap, error) {
+	return buildAppender(nil, common.Address{}, common.Address{}, FlagAllowWrongContractsAddrs)
+}
